@@ -582,7 +582,10 @@ def _iter_segments(
                                 slice_start,
                                 element.template_slice.stop + tfs_offset,
                             ),
-                            element.template_slice,
+                            slice(
+                                element.template_slice.start + consumed_element_length,
+                                element.template_slice.stop,
+                            ),
                             templated_file,
                         ),
                         subslice=slice(consumed_element_length, None),
@@ -620,22 +623,33 @@ def _iter_segments(
                             "Existing Consumed: %s",
                             consumed_element_length,
                         )
+                        # If an earlier (templated) slice spilled into this
+                        # element, the source position starts where it did.
                         if stashed_source_idx is not None:
-                            raise NotImplementedError(  # pragma: no cover
-                                "Found literal whitespace with stashed idx!"
+                            slice_start = stashed_source_idx
+                            stashed_source_idx = None
+                        else:
+                            slice_start = (
+                                element.template_slice.start
+                                + consumed_element_length
+                                + tfs_offset
                             )
                         incremental_length = (
-                            tfs.templated_slice.stop - element.template_slice.start
+                            tfs.templated_slice.stop
+                            - element.template_slice.start
+                            - consumed_element_length
                         )
                         yield element.to_segment(
                             pos_marker=PositionMarker(
                                 slice(
-                                    element.template_slice.start
-                                    + consumed_element_length
-                                    + tfs_offset,
+                                    slice_start,
                                     tfs.templated_slice.stop + tfs_offset,
                                 ),
-                                element.template_slice,
+                                slice(
+                                    element.template_slice.start
+                                    + consumed_element_length,
+                                    tfs.templated_slice.stop,
+                                ),
                                 templated_file,
                             ),
                             # Subdivide the existing segment.
@@ -681,9 +695,9 @@ def _iter_segments(
                         if stashed_source_idx is not None:
                             slice_start = stashed_source_idx
                         else:
-                            slice_start = (
-                                tfs.source_slice.start + consumed_element_length
-                            )
+                            # We can't subdivide the source of a templated
+                            # slice, so the remainder maps to all of it.
+                            slice_start = tfs.source_slice.start
                         yield element.to_segment(
                             pos_marker=PositionMarker(
                                 slice(
@@ -692,7 +706,11 @@ def _iter_segments(
                                     # slice. We can't subdivide any better.
                                     tfs.source_slice.stop,
                                 ),
-                                element.template_slice,
+                                slice(
+                                    element.template_slice.start
+                                    + consumed_element_length,
+                                    element.template_slice.stop,
+                                ),
                                 templated_file,
                             ),
                             subslice=slice(consumed_element_length, None),
